@@ -120,7 +120,10 @@ func genC17(repo string) (string, error) {
 		return "", err
 	}
 	// small functions: the full statement text is the tie
-	for _, fn := range []struct{ f *goast.File; recv, name string }{
+	for _, fn := range []struct {
+		f          *goast.File
+		recv, name string
+	}{
 		{rs, "RegionStorage", "SaveRegion"}, {rs, "RegionStorage", "flush"}, {rs, "RegionStorage", "FlushRegion"}, {rs, "RegionStorage", "Close"},
 		{rs, "", "deleteRegion"},
 		{st, "Storage", "SaveRegion"}, {st, "Storage", "DeleteRegion"}, {st, "Storage", "LoadRegions"}, {st, "Storage", "LoadRegionsOnce"},
